@@ -635,11 +635,12 @@ class Beam(_Simu):
             values = Sigma_e[:, index]
 
         elif result in ["ux'", "rx'", "ry'", "rz'"]:
-            coef = 1 if result == "Exx" else 1 / 2
+            # generalised strains, stored in the order of their conjugate internal forces
+            conjugate = {"ux'": "N", "rx'": "Mx", "ry'": "My", "rz'": "Mz"}
 
             Epsilon_e = self._Calc_Epsilon_e_pg(self.displacement).mean(1)
-            index = self._indexResult(result)
-            values = Epsilon_e[:, index] * coef
+            index = self._indexResult(conjugate[result])
+            values = Epsilon_e[:, index]
 
         else:
             Terminal.MyPrintError(f"The result '{result}' is not implemented yet.")
